@@ -29,7 +29,13 @@ func c14Property(t *rapid.T, st *Stats) {
 	_ = os.MkdirAll(root, 0o755)
 	trace := []string{}
 	classes := map[string]bool{}
-	fail := func(key, f string, a ...any) { Fail(t, st, key, fmt.Sprintf(f, a...), trace, nil) }
+	convertedOff := false // the directory was written with the referrers API on and is served with it off (listed finding)
+	fail := func(key, f string, a ...any) {
+		if convertedOff && key != "tree-changed" && key != "panic" {
+			key = "referrers-off-on-converted-layout"
+		}
+		Fail(t, st, key, fmt.Sprintf(f, a...), trace, nil)
+	}
 	sent := map[string]bool{}
 	defer func() {
 		cl := []string{}
@@ -44,6 +50,16 @@ func c14Property(t *rapid.T, st *Stats) {
 	push, del, blobDel, ref := rapid.Bool().Draw(t, "push"), rapid.Bool().Draw(t, "delete"), rapid.Bool().Draw(t, "blobDelete"), rapid.IntRange(0, 3).Draw(t, "referrer") > 0
 	// ---- build the root
 	rootKind := rapid.SampledFrom([]string{"healthy", "healthy", "legacy-adoptable", "legacy-any", "corrupt"}).Draw(t, "rootKind")
+	// a healthy root was written by a server with the referrers API on (the default) or off, whatever this server's switch says
+	writerRef := ref
+	if !ref && rootKind == "healthy" && rapid.Bool().Draw(t, "directoryWrittenWithReferrersAPI") {
+		if avoid("C14/referrers-off-on-converted-layout") {
+			st.Exclude("C14/referrers-off-on-converted-layout: a directory written with the referrers API on is served with it off")
+		} else {
+			writerRef, convertedOff = true, true
+			trace = append(trace, "the directory was written with the referrers API on")
+		}
+	}
 	classes["root:"+rootKind] = true
 	type known struct {
 		repo string
@@ -56,7 +72,7 @@ func c14Property(t *rapid.T, st *Stats) {
 	cd := dig("sha256", cfg)
 	buildHealthy := func(rn string) {
 		wc := baseConf(config.StoreDir, root)
-		wc.API.Referrer.Enabled = bp(ref) // a layout written with the referrers API off is not marked converted
+		wc.API.Referrer.Enabled = bp(writerRef) // a layout written with the referrers API off is not marked converted
 		w := olareg.New(wc)
 		k := known{repo: rn, tags: map[string]string{}, mans: map[string]string{}, blob: map[string][]byte{}}
 		push := func(b []byte) string {
